@@ -38,6 +38,11 @@ pub struct NetSender<T: ExchangeData> {
 }
 
 impl<T: ExchangeData> NetSender<T> {
+    /// Batches sent to this endpoint's channel and not yet received.
+    pub fn pending(&self) -> usize {
+        self.sender.clone_inner().queued()
+    }
+
     /// Send one batch, as `End`/`Batcher` would. Blocks when the channel is full.
     pub fn send(&self, batch: Vec<StreamElement<T>>) {
         self.sender
